@@ -145,6 +145,9 @@ ENGINE_KEYS = ['roaring.zzSelfFrame', 'roaring.zzSelfFresh', 'roaring.zzSelfByte
 ENGINE_OK = ['roaring.zzP.bump', 'roaring.zzB.bumpAll', 'roaring.zzMk', 'roaring.zzMask']
 
 FIX_COMMITS = [
+ ('1b5427e', 'roaring.runContainer16.iremoveRange', 'iremoveRange'),
+ ('c1b2631', 'roaring.runContainer16.or', 'or'),
+ ('af24782', 'roaring.runContainer16.addOffset', 'addOffset'),
  ('ba312a2', 'roaring64.Bitmap.ReadFrom,roaring64.Bitmap.FromUnsafeBytes', '/'),
  ('a1b2e12', 'roaring.runContainer16.ixorBitmap', 'ixorBitmap'),
  ('8a6ff4c', 'roaring.bitmapContainer.NextUnsetBit', 'NextUnsetBit/'),
